@@ -34,3 +34,14 @@ func HarnessAlias() {
 	verif.Assert(err == nil && r.Method == "a" && r.N == 1, "m1-intact")
 	verif.Reach("done")
 }
+
+// HarnessRawReuse: json.RawMessage decoded into the same variable twice overwrites the first content in place.
+func HarnessRawReuse() {
+	var m json.RawMessage
+	json.Unmarshal([]byte(`["first-call",1111]`), &m)
+	held := m
+	m = m[:0]
+	json.Unmarshal([]byte(`["second",2]`), &m)
+	verif.Assert(string(held) == `["first-call",1111]`, "held-intact")
+	verif.Reach("done")
+}
